@@ -401,7 +401,29 @@ func genNearGrid(r *hx.RNG, bits32 bool) (oracle.Val, string) {
 	a, b := exactOfFloat(f), exactOfFloat(g)
 	va := oracle.Val{Form: oracle.Finite, Neg: a.Neg, Coef: a.Coef, Exp: a.Exp}
 	cls := "on-grid"
-	if r.Chance(65) && f != g {
+	threshold := r.Chance(8)
+	if threshold {
+		// the rounding thresholds at the ends of the format: halfway between the largest finite value and the next power
+		// of two (2^1024 - 2^970, 2^128 - 2^103), and half the smallest subnormal (2^-1075, 2^-150)
+		two := big.NewInt(2)
+		top, sub := int64(1024), int64(1075)
+		if bits32 {
+			top, sub = 128, 150
+		}
+		mb := int64(54)
+		if bits32 {
+			mb = 25
+		}
+		if r.Bool() {
+			c := new(big.Int).Exp(two, big.NewInt(top), nil)
+			c.Sub(c, new(big.Int).Exp(two, big.NewInt(top-mb), nil))
+			va = oracle.Val{Form: oracle.Finite, Neg: r.Bool(), Coef: c, Exp: 0}
+		} else {
+			va = oracle.Val{Form: oracle.Finite, Neg: r.Bool(), Coef: new(big.Int).Exp(big.NewInt(5), big.NewInt(sub), nil), Exp: -sub}
+		}
+		cls = "end-threshold"
+	}
+	if r.Chance(65) && f != g && !threshold {
 		// midpoint (a + b) / 2, exact
 		s, ok := addDecVals(va, oracle.Val{Form: oracle.Finite, Neg: b.Neg, Coef: b.Coef, Exp: b.Exp})
 		if ok {
@@ -412,6 +434,9 @@ func genNearGrid(r *hx.RNG, bits32 bool) (oracle.Val, string) {
 	if r.Chance(60) {
 		// nudge by a relative 10^-k, k from 3 (well outside the double-rounding band) to 60 (deep inside)
 		k := int64(r.Range(3, 60))
+		if threshold && r.Chance(70) {
+			k = int64(r.Range(6, 24)) // around the width of one unit of the format (2^-24, 2^-53) and of the band inside it
+		}
 		d := oracle.Digits(va.Coef)
 		ext := k + 2
 		co := new(big.Int).Mul(va.Coef, oracle.Pow10(ext))
